@@ -55,16 +55,35 @@ func runC20(s *kernel.Sim) {
 	s.Knobs["predicate_latency"] = lat.String()
 	s.MixSig(fmt.Sprint(consecutive, stable, interval, cooldown, script))
 
+	// the real predicate has no time-out of its own: in a quarter of the runs one
+	// evaluation hangs for several check intervals before it answers
+	hangAt, hangFor := -1, time.Duration(0)
+	if tp.Chance(1, 4) {
+		hangAt = tp.Range(1, length-1)
+		hangFor = interval * time.Duration([]int{2, 5, 30}[tp.Choose(3)])
+	}
+	s.Knobs["predicate_hangs_at"], s.Knobs["predicate_hangs_for"] = hangAt, hangFor.String()
 	type obs struct {
-		t time.Duration // start of the check (the earliest instant the state can count as observed)
-		v bool
+		t        time.Duration // start of the check (the earliest instant the state can count as observed)
+		v        bool
+		returned bool // the evaluation has answered: only then is it an observation
+	}
+	var observations []obs
+	returned := func() int {
+		n := 0
+		for _, o := range observations {
+			if !o.returned {
+				break
+			}
+			n++
+		}
+		return n
 	}
 	type react struct {
 		t    time.Duration
 		v    bool
 		nObs int // observations made before the reaction
 	}
-	var observations []obs
 	var reactions []react
 	cfg := failsafe.Config{
 		ObtainPredicate: func() bool {
@@ -73,19 +92,24 @@ func runC20(s *kernel.Sim) {
 			if i < len(script) {
 				v = script[i]
 			}
-			observations = append(observations, obs{s.Now(), v})
+			observations = append(observations, obs{t: s.Now(), v: v})
 			s.Event("observe", fmt.Sprint(v))
 			if lat > 0 && (latEvery || i%3 == 0) {
 				time.Sleep(lat)
 			}
+			if i == hangAt {
+				s.FaultFired("predicate_evaluation_hangs")
+				time.Sleep(hangFor)
+			}
+			observations[i].returned = true
 			return v
 		},
 		OnChangeToTrue: func() {
-			reactions = append(reactions, react{s.Now(), true, len(observations)})
+			reactions = append(reactions, react{s.Now(), true, returned()})
 			s.Event("reaction", "healthy-again")
 		},
 		OnChangeToFalse: func() {
-			reactions = append(reactions, react{s.Now(), false, len(observations)})
+			reactions = append(reactions, react{s.Now(), false, returned()})
 			s.Event("reaction", "unhealthy")
 		},
 		MinTimeBetweenCalls: interval, ConsecutiveN: consecutive, MinStablePeriod: stable, CooldownPeriod: cooldown,
